@@ -80,6 +80,54 @@ def model_checks(driver, cs, model):
                  'model_usize32_overflow_below_bound': {'count': len(zero_product_refusals), 'examples': zero_product_refusals[:3]}, 'model_only_evaluations': 2 * len(cs)}
 
 
+def catalogue_values(exe, seed, tier):
+    """The bound against VALUES of real Rust types: for every catalogue type with a BorshSchema impl,
+    max_serialized_size of for_type::<T>() >= len(to_vec(v)) for generated values v; and the free functions
+    borsh::max_serialized_size::<T>() / borsh::schema_container_of::<T>() agree with the methods."""
+    import random
+    import codec as K
+    rng = random.Random(seed * 7919 + 5)
+    cat = [(tid, t) for tid, t in K.catmod.catalogue_types() if K.has_schema(t)]
+    hres = run_cases(exe, [case_line('h%d' % tid, 'schema-helpers', tid, K.sexp(t)) for tid, t in cat])
+    nval = 4 if tier == 'quick' else 16
+    cases = [('v%d_%d' % (tid, j), tid, t, K.show(K.gen_val(t, rng, 6 if tier == 'quick' else 12))) for tid, t in cat for j in range(nval)]
+    eres = run_cases(exe, [case_line(cid, 'enc', tid, K.sexp(t), v) for cid, tid, t, v in cases])
+    dis, fails = [], []
+    bound = {}
+    for tid, t in cat:
+        r = hres.get('h%d' % tid)
+        if r is None or not r.startswith('ok '):
+            dis.append({'what': 'schema-helpers gave %r for %s' % (r, K.rust(t))})
+            continue
+        same, helper, method = r[3:].split('\t')
+        if same != 'true' or helper != method:
+            fails.append({'class': 'helper', 'key': K.sexp(t),
+                          'what': 'borsh::max_serialized_size::<%s>() = %s but for_type::<T>().max_serialized_size() = %s; schema_container_of == for_type: %s'
+                                  % (K.rust(t), helper, method, same), 'type': K.sexp(t)})
+        if method.startswith('ok '):
+            bound[tid] = int(method[3:])
+    checked = over = 0
+    worst = (0.0, None)
+    for cid, tid, t, v in cases:
+        r = eres.get(cid) or ''
+        if '\t' not in r:
+            continue
+        repr_, res = r.split('\t', 1)
+        if not res.startswith('ok') or tid not in bound:
+            continue
+        n = len(res[3:].replace('-', '')) // 2
+        checked += 1
+        if bound[tid]:
+            worst = max(worst, (n / bound[tid], K.rust(t)))
+        if n > bound[tid]:
+            over += 1
+            fails.append({'class': 'bound-below-value', 'key': '%s %s' % (K.sexp(t), repr_[:80]),
+                          'what': 'max_serialized_size of %s is %d but the value %s serializes to %d bytes' % (K.rust(t), bound[tid], repr_[:200], n),
+                          'type': K.sexp(t), 'value': repr_, 'bytes': res[3:], 'bound': bound[tid]})
+    return ({'catalogue_types_with_bound': len(bound), 'catalogue_values_checked_against_bound': checked,
+             'largest_value/bound': {'ratio': round(worst[0], 4), 'type': worst[1]}, 'helper_functions_compared': len(cat)}, dis, fails)
+
+
 def run(tier, seed, t0):
     coq = coq_side(PID)
     driver = ensure_driver()
@@ -115,6 +163,12 @@ def run(tier, seed, t0):
             'traces_validated_against_impl': len(cs),
         })
         stats.update(mstats)
+
+    if exe is not None:
+        vstats, vdis, vfail = catalogue_values(exe, seed, tier)
+        stats.update(vstats)
+        disagreements += vdis
+        failures += vfail
 
     def search():
         found = []
